@@ -35,3 +35,100 @@ Theorem C01_selection_sound : forall l b,
   cand_ok l -> find_best l = Ok (Some b) ->
   In b l /\ forall x, In x l -> lexc (bkey b) (bkey x) <> Gt.
 Proof. exact selected_not_worse. Qed.
+
+(** * Two instances and the wire between them (Inst/TwoNode.v).
+
+    C01_two_nodes: A is an instance that is its own grandmaster (stepsRemoved 0,
+    parentDS = its own attributes), port 0 MASTER; it emits two Announces (two
+    firings of the announce timer).  B is a one-port instance that has not heard
+    anybody; it receives exactly the octets A emitted and runs the BMCA.  Then
+    B's port becomes SLAVE of A (PASSIVE if B's clockClass is in 1..127) exactly
+    when B's own data set loses the comparison of Figures 34/35 against A's, and
+    otherwise is (stays) MASTER; when it becomes slave, parentDS names A's port
+    and A's clock as grandmaster and stepsRemoved is 1.  The theorem goes through
+    the emitted frame octets, the decoder, the foreign-master list and the BMCA
+    of the model; "has not heard anybody" and "own grandmaster" hold after [init]
+    and after every history of silent events (C01_quiet_init, C01_quiet_run). *)
+From SV Require Import Inst.TwoNode.
+Theorem C01_two_nodes : forall cA iA ppA iA1 oA1 iA2 oA2 cB iB iB1 oB1 iB2 oB2 iB3 oB3 f1 f2,
+  reach_inv cA iA -> nth_error (i_ports iA) 0 = Some ppA -> p_state ppA = PMaster ->
+  ds_path_enable (i_ds iA) = false -> own_view (i_ds iA) ->
+  step iA (EvAnnounceTimer 0 []) = Ok (iA1, oA1) -> step iA1 (EvAnnounceTimer 0 []) = Ok (iA2, oA2) ->
+  sent_frames (obs_of_port oA1 0) = [(false, f1)] -> sent_frames (obs_of_port oA2 0) = [(false, f2)] ->
+  reach_inv cB iB -> inv5 cB iB s_empty -> nports cB = 1%nat ->
+  (match port_cfg cB 0 with Some pc => pc_acceptable pc | None => None end) = None ->
+  (match port_cfg cB 0 with Some pc => pc_master_only pc | None => true end) = false ->
+  ds_path_enable (i_ds iB) = false ->
+  dd_domain (ds_default (i_ds iA)) = dd_domain (ds_default (i_ds iB)) ->
+  dd_sdo_id (ds_default (i_ds iA)) = dd_sdo_id (ds_default (i_ds iB)) ->
+  dd_clock_identity (ds_default (i_ds iA)) <> own_clock cB ->
+  step iB (EvRecvGeneral 0 f1) = Ok (iB1, oB1) -> step iB1 (EvRecvGeneral 0 f2) = Ok (iB2, oB2) -> step iB2 EvBmca = Ok (iB3, oB3) ->
+  let ddA := ds_default (i_ds iA) in
+  let ddB := ds_default (i_ds iB2) in
+  let prev := state_of (snapshot_of iB2) 0 in
+  prev <> 2 ->
+  let dec := if (1 <=? cq_class (dd_quality ddB)) && (cq_class (dd_quality ddB) <=? 127)
+             then (if worse_than ddB ddA then DP1 else DM1)
+             else (if worse_than ddB ddA then DS1 else DM2) in
+  state_of (snapshot_of iB3) 0 = decided_state dec prev (dd_slave_only ddB) false /\
+  (dec = DS1 -> ds_steps_removed (i_ds iB3) = 1 /\ pd_parent (ds_parent (i_ds iB3)) = p_identity ppA /\
+                pd_gm_identity (ds_parent (i_ds iB3)) = dd_clock_identity ddA).
+Proof. exact two_nodes. Qed.
+
+(** Two clocks that are their own grandmasters and have different identities never
+    both rank the other's Announce above themselves, and never both below: the
+    two directions of C01_two_nodes demote exactly one of them. *)
+Theorem C01_two_views_opposite : forall dA dB srcA seqA minA pidB aA srcB seqB minB pidA aB,
+  own_view dA -> own_view dB -> dd_clock_identity (ds_default dA) <> dd_clock_identity (ds_default dB) ->
+  m_body (msg_announce dA srcA seqA minA) = BAnnounce aA -> m_body (msg_announce dB srcB seqB minB) = BAnnounce aB ->
+  b_better_or_topo (fig34 (cmp_from_own (ds_default dB)) (cmp_from_announce (m_header (msg_announce dA srcA seqA minA)) aA pidB)) =
+  negb (b_better_or_topo (fig34 (cmp_from_own (ds_default dA)) (cmp_from_announce (m_header (msg_announce dB srcB seqB minB)) aB pidA))).
+Proof. exact two_views_opposite. Qed.
+
+Theorem C01_quiet_init : forall s es rel i o,
+  setup_valid s -> init s = Ok (i, o) -> quiet (mkCase s es rel (Some o) (run i es)) i.
+Proof. exact quiet_init. Qed.
+Theorem C01_quiet_run : forall c es i i',
+  reach_inv c i -> Forall event_valid es -> forallb silent_event es = true -> quiet c i -> run_state i es = Some i' ->
+  reach_inv c i' /\ quiet c i'.
+Proof. exact quiet_run. Qed.
+Theorem C01_quiet_single : forall c i, nports c = 1%nat -> quiet c i -> inv5 c i s_empty /\ own_view (i_ds i).
+Proof. exact quiet_single. Qed.
+
+(** C01_two_clock_network: two clocks, one link, one port each (any valid
+    configurations with the same domain and different clock identities, not
+    slave-only, no path trace, no acceptable-master list, not master-only); both
+    start, time out on the announce receipt timer, announce twice, hear the
+    other's two Announces (the very octets the other emitted) and run the BMCA.
+    Exactly one of them keeps its port MASTER - the one whose own data set wins
+    Figures 34/35 - and the other one's port is SLAVE (PASSIVE if its clockClass is
+    in 1..127): one grandmaster, for every pair of configurations. *)
+Theorem C01_two_clock_network : forall sA sB iA0 oA0 iB0 oB0,
+  single_plain sA -> single_plain sB ->
+  ic_domain (su_config sA) = ic_domain (su_config sB) -> ic_sdo_id (su_config sA) = ic_sdo_id (su_config sB) ->
+  ic_clock_identity (su_config sA) <> ic_clock_identity (su_config sB) ->
+  init sA = Ok (iA0, oA0) -> init sB = Ok (iB0, oB0) ->
+  exists fA1 fA2 fB1 fB2 iA3 iB3 iA6 iB6,
+    run_state iA0 [EvAnnounceReceiptTimer 0; EvAnnounceTimer 0 []; EvAnnounceTimer 0 []] = Some iA3 /\
+    run_state iB0 [EvAnnounceReceiptTimer 0; EvAnnounceTimer 0 []; EvAnnounceTimer 0 []] = Some iB3 /\
+    run_state iA3 [EvRecvGeneral 0 fB1; EvRecvGeneral 0 fB2; EvBmca] = Some iA6 /\
+    run_state iB3 [EvRecvGeneral 0 fA1; EvRecvGeneral 0 fA2; EvBmca] = Some iB6 /\
+    let wA := worse_than (ds_default (i_ds iA0)) (ds_default (i_ds iB0)) in
+    state_of (snapshot_of iA6) 0 = (if wA then demoted_state (ds_default (i_ds iA0)) else 6) /\
+    state_of (snapshot_of iB6) 0 = (if wA then 6 else demoted_state (ds_default (i_ds iB0))).
+Proof. exact two_clock_network. Qed.
+
+(** The premises are satisfiable: clock 5 (priority1 100) announces twice, clock 9
+    (priority1 128, clockClass 248) hears the two frames and runs the BMCA: its port
+    is SLAVE, parent = port 1 of clock 5, stepsRemoved 1 (kernel-evaluated). *)
+From SV Require Import Inst.TwoNodeEx.
+Example C01_two_nodes_nonvacuous :
+  match exA_frames, init exB with
+  | [f1; f2], Ok (iB, _) =>
+      match run_state iB [EvAnnounceReceiptTimer 0; EvRecvGeneral 0 f1; EvRecvGeneral 0 f2; EvBmca] with
+      | Some iB3 => sn_states (snapshot_of iB3) = [9] /\ pd_parent (ds_parent (i_ds iB3)) = mkPI 5 1 /\ ds_steps_removed (i_ds iB3) = 1
+      | None => False
+      end
+  | _, _ => False
+  end.
+Proof. exact two_nodes_example. Qed.
